@@ -62,11 +62,11 @@ def projection(m: Spec, sc: str) -> Spec:
 def cells(tier: str) -> dict:
     out = {}
 
-    def add(name, kind, n, overrides, emax=3 * H):
+    def add(name, kind, n, overrides, emax=3 * H, emin=60):
         def f():
             m = multi(kind, n, overrides)
             projs = [projection(m, sc) for sc in m.scen_names]
-            rg = {p: (60, emax) for p in m.params()}
+            rg = {p: (emin, emax) for p in m.params()}
             leaves = [m.full_id(t) for t in m.tasks if m.is_leaf(t)]
 
             def rel(specs, vals, obs, infos):
@@ -82,8 +82,10 @@ def cells(tier: str) -> dict:
     add("chain[2,s2:a]", "chain", 2, {"a": ("s2", "e0s2")})
     add("chain[3,s2:a]", "chain", 3, {"a": ("s2", "e0s2")})
     add("limits[2,s2:b]", "limits", 2, {"b": ("s2", "e1s2")}, emax=5 * H)
+    # efforts close to (but below) the point where the horizon estimate would move the project end: the estimate must not
+    # depend on how many scenarios are declared
     add("alap[2,none]", "alap", 2, {}, emax=8 * H)
-    add("alap[4,none]", "alap", 4, {}, emax=8 * H)
+    add("alap[4,none]", "alap", 4, {}, emax=8 * H, emin=7 * H + 1800)
     if tier != "quick":
         add("chain[4,s3:b]", "chain", 4, {"b": ("s3", "e1s3")})
         add("alap[3,s2:late]", "alap", 3, {"late": ("s2", "e1s2")}, emax=8 * H)
